@@ -237,6 +237,7 @@ void clientSide(bool thorough)
 struct ServerCell
 {
   int require = 0, cli = 0, ver = 0, kind = 0, lax = 0;
+  int noAnchor = 0; // client certificates required but NO trust anchor configured (the run's system store is CA-B)
 };
 const char *CLI[] = {"none", "cli_ok", "cli_b"};
 
@@ -251,8 +252,9 @@ void serverSide()
   c.ver = mc_choose(5, MC_FREE);
   c.kind = mc_choose(3, MC_FREE);
   c.lax = (c.ver == 1 || c.ver == 2) ? mc_choose(2, MC_FREE) : 0;
+  c.noAnchor = (c.require && c.ver == 0 && c.kind == 0) ? mc_choose(2, MC_FREE) : 0;
   std::ostringstream o;
-  o << "require-client-cert=" << c.require << " client-cert=" << CLI[c.cli] << " peermax=" << VERN[c.ver] << " kind=" << c.kind << " lax=" << c.lax;
+  o << "require-client-cert=" << c.require << " client-cert=" << CLI[c.cli] << " peermax=" << VERN[c.ver] << " kind=" << c.kind << " lax=" << c.lax << " anchor=" << (c.noAnchor ? "none" : "ca_a");
   std::string name = o.str();
   TransportConfig cfg;
   cfg.enableHighResolutionTimers = false;
@@ -265,7 +267,8 @@ void serverSide()
   if (c.require)
   {
     cfg.serverTls.verifyPeer = true;
-    cfg.serverTls.caFile = C("ca_a.pem");
+    if (!c.noAnchor)
+      cfg.serverTls.caFile = C("ca_a.pem");
   }
   if (c.lax)
   {
@@ -278,7 +281,15 @@ void serverSide()
   t->onAccept([&](SessionId s, const TransportAddress &) { sid = s; t->send(s, iora::core::BufferView{(const uint8_t *)MARKER, strlen(MARKER)}); });
   t->onData([&](SessionId, iora::core::BufferView d, std::chrono::steady_clock::time_point) { inbound.append((const char *)d.data(), d.size()); });
   if (t->start().isErr())
+  {
+    if (c.noAnchor)
+    {
+      // refusing the configuration is the safest possible answer: nobody is admitted
+      mc_obs("%s -> transport did not start (refused configuration)", name.c_str());
+      return;
+    }
     mc_violation("harness-internal", "server-start", "server transport did not start");
+  }
   if (t->addListener("127.0.0.1", 9443, TlsMode::Server).isErr())
     mc_violation("harness-internal", "server-listen", "listener failed");
   tp::PeerConfig pc;
@@ -296,8 +307,9 @@ void serverSide()
   peer.connectNow();
   mc_quiesce(300ull * 1000000ull);
   mc_quiesce(300ull * 1000000ull);
-  bool admitAllowed = c.kind == 0 && !(c.ver == 1 || c.ver == 2) && (!c.require || c.cli == 1);
-  std::string why = c.kind ? (c.kind == 1 ? "plaintext-peer" : "garbage-peer") : (c.ver == 1 || c.ver == 2) ? std::string("peer-ceiling-") + VERN[c.ver] : std::string("client-cert-") + CLI[c.cli];
+  // without a configured anchor no client certificate chains to a CONFIGURED trust anchor: nobody may be admitted
+  bool admitAllowed = c.kind == 0 && !(c.ver == 1 || c.ver == 2) && (!c.require || (c.cli == 1 && !c.noAnchor));
+  std::string why = c.kind ? (c.kind == 1 ? "plaintext-peer" : "garbage-peer") : (c.ver == 1 || c.ver == 2) ? std::string("peer-ceiling-") + VERN[c.ver] : std::string("client-cert-") + CLI[c.cli] + (c.noAnchor ? ":no-anchor-configured" : "");
   int version = peer.conns.empty() ? 0 : peer.conns[0].version;
   std::string wire = peer.conns.empty() ? "" : peer.conns[0].wire();
   mc_obs("%s -> inbound=%zu peerHandshake=%d version=%x admitAllowed=%d", name.c_str(), inbound.size(), int(!peer.conns.empty() && peer.conns[0].handshakeDone), version, int(admitAllowed));
